@@ -28,6 +28,8 @@ def obligations(tier):
     obs.append(Ob("geometry", dict(), LIN, fn="run_geometry", weight=1))
     for name in PATTERNS:
         obs.append(Ob(f"pattern/{name}/witness", dict(fn=name, mode="witness"), PAT, fn="run_pattern", weight=30, budget_s=900))
+        # 'all histories of >= 10 candles followed by a witness': the shortest one (witness at index 10)
+        obs.append(Ob(f"pattern/{name}/witness after exactly 10 candles", dict(fn=name, mode="witness", n=11), PAT, fn="run_pattern", weight=30, budget_s=900))
         for k in range(CLAUSES[name]):
             obs.append(Ob(f"pattern/{name}/break-clause-{k}", dict(fn=name, mode="break", clause=k), PAT, fn="run_pattern", weight=30, budget_s=900))
         obs.append(Ob(f"pattern/{name}/shift-invariance", dict(fn=name, mode="shift"), PAT, fn="run_invariance", weight=30, budget_s=900))
@@ -155,7 +157,7 @@ def clauses(ctx, name, cs, i, m):
 def run_pattern(ctx, P):
     name = P["fn"]
     f = get_fn(name)
-    n = 12
+    n = P.get("n", 12)
     cs = mk_candles(ctx, n)
     i = n - 1
     for c in cs:                      # keep the history non-degenerate so that 2x margins exist
